@@ -109,8 +109,10 @@ EXPLANATION += (
     "object mutated through a reference obtained BEFORE the memo was taken "
     "(`i = o.inner; f(o); i.x = 'text'; f(o)`) is not noticed - true of "
     "today's tree (second call answered from the call cache, `int` inferred "
-    "for a str); the rule that states this (R1.22) is parked in "
-    "rules/pending_c01_deep_memo.py because it fires today.")
+    "for a str); the rule that states this (R1.22, rules/c01_deep_memo.py) is "
+    "active and its one violation on today's tree is reported as known "
+    "finding D54 (key R1.22:SimpleValue.get_fullhash:deep-digest-validated-"
+    "by-shallow-stamp in known_findings.json).")
 ASSUMPTIONS += [
     "R1.20: truthiness of an instance is decided by __bool__, then __len__ "
     "(data model); Class.get_own_attributes() is the own-member table of a "
